@@ -6,7 +6,6 @@ sys.path.insert(0, HERE)
 from vx import props as P
 
 NA = {
-    "C14": "the failing behaviour (allocation of a declared length, recursion depth, abort) lives inside serde_bencode and outside both verifiers' memory model (allocation always succeeds in CBMC and Verus); 'keeps serving after any datagram sequence' is liveness of the event loop",
 }
 NOT_REACHED = "claimed in DESIGN.md but its unit is not built yet in this tree (contract-based check planned; never claimed in weakened form)"
 
